@@ -173,3 +173,26 @@ let () =
         "{\"r\":\"ok\",\"token\":" ^ (match lex_multi q (as_text t) with Some (tok, _) -> jtext tok | None -> "null")
         ^ ",\"occurs\":" ^ (if occurs3 q (as_text s) then "true" else "false") ^ "}"
     | _ -> raise (Bad "mlex"))
+
+(* C08: return addresses of macro expansions.  (macrora FOREST count): FOREST = list of (op) | (lab) | (call FOREST) *)
+let () =
+  let rec as_tree = function
+    | L [ Atom "op" ] -> TOp
+    | L [ Atom "lab" ] -> TLab
+    | L [ Atom "call"; f ] -> TCall (as_forest f)
+    | _ -> raise (Bad "tree")
+  and as_forest = function
+    | L l -> List.fold_right (fun t f -> FCons (as_tree t, f)) l FNil
+    | _ -> raise (Bad "forest") in
+  let jitem = function
+    | IOp -> "[\"op\"]" | ILab -> "[\"lab\"]" | IEnd -> "[\"end\"]"
+    | IStart l -> "[\"start\"," ^ jnat l ^ "]" in
+  let jpairs l = jlist (fun (i, r) -> "[" ^ jnat i ^ "," ^ jnat r ^ "]") l in
+  register "macrora" (function
+    | L [ _; f; c ] ->
+        let b = as_forest f in
+        let c = nat_of_int (as_int c) in
+        let items = flat_t (TCall b) in
+        "{\"r\":\"ok\",\"flat\":" ^ jlist jitem items ^ ",\"exec\":" ^ jpairs (exec items c [])
+        ^ ",\"spec\":" ^ jpairs (spec_f b c (add c (S (ops_f b)))) ^ ",\"ops\":" ^ jnat (ops_f b) ^ "}"
+    | _ -> raise (Bad "macrora"))
